@@ -39,7 +39,7 @@ Proof.
 Qed.
 
 Theorem pinned_piece_consumed :
-  forall fuel complete tabs e T word s st ci lid lit to log,
+  forall fuel complete tabs e T acc word s st ci lid lit to log,
     all_plain (lits_of T) -> plain word = true ->
     assocN s (t_mlit T) = Some st ->
     (forall id l t, In (id, l) (lits_of T) -> assocN id st = Some t -> id = lid /\ l = lit) ->
@@ -47,10 +47,10 @@ Theorem pinned_piece_consumed :
     In (lid, lit) (lits_of T) -> assocN lid st = Some to ->
     String.prefix lit (sdrop ci word) = true ->
     (ci < String.length word)%nat ->
-    sw_loop (S fuel) Pinned complete tabs e T word s ci log
-    = sw_loop fuel Pinned complete tabs e T word to (ci + String.length lit) log.
+    sw_loop (S fuel) Pinned complete tabs e T acc word s ci log
+    = sw_loop fuel Pinned complete tabs e T acc word to (ci + String.length lit) log.
 Proof.
-  intros fuel complete tabs e T word s st ci lid lit to log Hpl Hpw Hst Hu Hx Hin Ha Hp Hl.
+  intros fuel complete tabs e T acc word s st ci lid lit to log Hpl Hpw Hst Hu Hx Hin Ha Hp Hl.
   rewrite sw_loop_S.
   assert (Nat.leb (String.length word) ci = false) as -> by (apply Nat.leb_gt; lia).
   cbv zeta. rewrite Hst. unfold lit_loop. fold (lits_of T).
@@ -59,15 +59,15 @@ Proof.
 Qed.
 
 Theorem pinned_partial_stops :
-  forall fuel tabs e T word s st ci log,
+  forall fuel tabs e T acc word s st ci log,
     all_plain (lits_of T) -> plain word = true -> sorted_desc (lits_of T) ->
     assocN s (t_mlit T) = Some st ->
     (exists id l, In (id, l) (lits_of T) /\ String.prefix (sdrop ci word) l = true /\ l <> sdrop ci word) ->
-    exists m, sw_loop (S fuel) Pinned true tabs e T word s ci log = Ok (m, s, ci, log).
+    exists m, sw_loop (S fuel) Pinned true tabs e T acc word s ci log = Ok (m, s, ci, log).
 Proof.
-  intros fuel tabs e T word s st ci log Hpl Hpw Hs Hst Hex.
+  intros fuel tabs e T acc word s st ci log Hpl Hpw Hs Hst Hex.
   rewrite sw_loop_S.
-  destruct (Nat.leb (String.length word) ci); [now exists true|].
+  destruct (Nat.leb (String.length word) ci); [eexists; reflexivity|].
   cbv zeta. rewrite Hst. unfold lit_loop. fold (lits_of T).
   rewrite (lit_loop_pinned_plain st _ (lits_of T) Hpl (plain_sdrop ci word Hpw)). cbn [obind].
   rewrite (pinned_refuses_shorter_value st _ (lits_of T) Hs Hex).
@@ -134,7 +134,7 @@ Section ChainPinned.
       set (k := (count_entries (t_mlit T) + match t_mcmd T with Some l => count_entries l | None => 0 end)%nat).
       pose proof (length_pos pre Hpne). rewrite length_append.
       destruct (S (String.length pre + String.length p) * S k)%nat as [|f] eqn:E; try lia. now exists f. }
-    rewrite (pinned_piece_consumed _ true tabs e T (pre ++ p) 0 [(ipre, 1)] 0 ipre pre 1 log
+    rewrite (pinned_piece_consumed _ true tabs e T [] (pre ++ p) 0 [(ipre, 1)] 0 ipre pre 1 log
                (chain_all_plain lits ipre Hplain) Hpw (chain_mlit0 lits ipre)
                (chain_state0_unique lits ipre pre Hpre)).
     2:{ cbn [sdrop]. intros id l Hin Hp. eapply chain_state0_prefix_unique; eauto. }
@@ -143,7 +143,7 @@ Section ChainPinned.
     2:{ cbn [sdrop]. apply prefix_app. }
     2:{ rewrite length_append. pose proof (length_pos pre Hpne). lia. }
     cbn [Nat.add].
-    destruct (pinned_partial_stops f tabs e T (pre ++ p) 1 _ (String.length pre) log
+    destruct (pinned_partial_stops f tabs e T [] (pre ++ p) 1 _ (String.length pre) log
                 (chain_all_plain lits ipre Hplain) Hpw (chain_sorted lits ipre Hsorted) (chain_mlit1 lits ipre)) as [m Hm].
     { rewrite sdrop_app. destruct (value_index lits ipre pre Hpre v Hv) as [id Hid].
       exists id, v. repeat split; try assumption.
